@@ -95,7 +95,7 @@ def run(ctx):
     sfx = '' if ctx.quick else '_thorough'
     ctx.rule = ('S->C->S: every distinct curated state (st, sc) reachable by <= 2 merges / splits / '
                 'reassignments (ids may be skipped) from every assignment of 4 (5) spikes to 3 templates '
-                'is emitted by TLC; quick replays a seeded sample of them (thorough: all): a dense '
+                'is emitted by TLC; quick replays a seeded sample of 2500 of them (thorough: 60000): a dense '
                 'dataset with random integer templates, two shanks and optional exact whitening is built '
                 'around it and loaded; merge_map / nan_idx / n_clusters are compared with the '
                 'transcription and the cluster waveforms / public cluster means are validated by the '
@@ -116,7 +116,7 @@ def run(ctx):
         raise MachineryError('read %d of %d cases' % (k, n))
     cases = [seen[key] for key in sorted(seen)]
     rng = np.random.RandomState(ctx.seed + 8)
-    budget = 2500 if ctx.quick else len(cases)
+    budget = 2500 if ctx.quick else 60000      # (all ~250 k curated states took 50 min: a seeded sample)
     if len(cases) > budget:
         pick = set(rng.choice(len(cases), size=budget, replace=False).tolist())
         cases = [c for j, c in enumerate(cases) if j in pick or c['sc'] == c['st']]
